@@ -249,7 +249,12 @@ end
 
 `for listener in self.listeners.copy(): listener.async_update_records(...)`: the set is copied before the
 iteration, so whatever the callbacks do to `self.listeners` (add or remove listeners, themselves included)
-changes who is called *next time*, never who is called now. -/
+changes who is called *next time*, never who is called now.
+
+`async_remove_listener` does `self.listeners.remove(listener)` on a **set** and catches `ValueError`: removing a
+listener that is not registered raises `KeyError`, which is not caught (D18).  Raised from inside a callback it
+propagated out of `async_updates` / `async_updates_complete` and aborted the datagram; repaired in 1ae3781
+(`except (KeyError, ValueError)`): now a logged no-op. -/
 
 /-- something a callback does to the listener set -/
 inductive ListenerAct where
@@ -257,20 +262,87 @@ inductive ListenerAct where
   | remove (l : Nat)
   deriving Repr, DecidableEq
 
-/-- `self.listeners.add` / `self.listeners.remove` (a set) -/
-def applyAct (ls : List Nat) : ListenerAct → List Nat
-  | .add l => if ls.contains l then ls else ls ++ [l]
-  | .remove l => ls.filter (fun x => x != l)
+/-- `async_add_listener(l, None)` (`set.add`) / `async_remove_listener(l)`: `set.remove` raises `KeyError` when the listener
+is not registered; `catches` = does `async_remove_listener` catch it (generated leaf `remove_listener_catches_keyerror`; since
+the D18 repair it does: a logged no-op).  Before the repair only `ValueError` was caught and the `KeyError` escaped. -/
+def applyAct (catches : Bool) (ls : List Nat) : ListenerAct → Except PyExc (List Nat)
+  | .add l => .ok (if ls.contains l then ls else ls ++ [l])
+  | .remove l => if ls.contains l then .ok (ls.filter (fun x => x != l)) else if catches then .ok ls else .error .keyError
 
-/-- one notification round: every listener of the copy is called once, in the copy's order; `react l` is what
-listener `l`'s callback does to the live set.  Returns (listeners called, live set afterwards). -/
-def notifyRound (ls : List Nat) (react : Nat → List ListenerAct) : List Nat × List Nat :=
-  (ls, ls.foldl (fun live l => (react l).foldl applyAct live) ls)
+/-- the body of one callback: its actions in order, up to the first one that raises -/
+def runActs (catches : Bool) (live : List Nat) (acts : List ListenerAct) : List Nat × Option PyExc :=
+  acts.foldl (fun st a =>
+    match st.2 with
+    | some _ => st
+    | none => match applyAct catches st.1 a with
+      | .ok l => (l, none)
+      | .error e => (st.1, some e)) (live, none)
 
-/-- a datagram with updates: round 1 = `async_update_records`, round 2 = `async_update_records_complete` -/
-def notifyDatagram (ls : List Nat) (react1 react2 : Nat → List ListenerAct) : List Nat × List Nat × List Nat :=
-  let r1 := notifyRound ls react1
-  let r2 := notifyRound r1.2 react2
-  (r1.1, r2.1, r2.2)
+/-- one notification round -/
+structure Round where
+  /-- the listeners whose callback was entered, in order -/
+  called : List Nat
+  /-- `self.listeners` afterwards -/
+  live : List Nat
+  /-- the exception that ended the round early, if any -/
+  err : Option PyExc
+  deriving Repr
+
+/-- one notification round.  `copied`: is `self.listeners` copied before the loop (generated leaves
+`updates_iterates_copy` / `complete_iterates_copy`)?  With the copy, the loop runs over the snapshot `ls` in its order,
+whatever the callbacks do to the live set; `react l` is what listener `l`'s callback does to the live set; an exception
+out of a callback ends the round.  Without the copy CPython raises `RuntimeError: Set changed size during iteration`
+at the next step of the loop (also at the step that would end it) once a callback has changed the size of the set. -/
+def notifyRoundWith (copied catches : Bool) (ls : List Nat) (react : Nat → List ListenerAct) : Round :=
+  let r := ls.foldl (fun st l =>
+    match st.err with
+    | some _ => st
+    | none =>
+      if !copied && st.live.length != ls.length then { st with err := some .other }
+      else
+        let r := runActs catches st.live (react l)
+        { called := st.called ++ [l], live := r.1, err := r.2 }) { called := [], live := ls, err := none }
+  if !copied && r.err.isNone && r.live.length != ls.length then { r with err := some .other } else r
+
+/-- the round as the code runs it today: over `self.listeners.copy()`, removals of absent listeners caught -/
+def notifyRound (ls : List Nat) (react : Nat → List ListenerAct) : Round := notifyRoundWith true true ls react
+
+/-- what one datagram does when listeners are registered -/
+structure Delivery where
+  /-- the cache when `async_updates_from_response` returns or raises -/
+  cache : Cache
+  listeners : List Nat
+  /-- listeners whose `async_update_records` was entered -/
+  round1 : List Nat
+  /-- listeners whose `async_update_records_complete` was entered -/
+  round2 : List Nat
+  /-- the exception that propagated out of `async_updates_from_response`, if any -/
+  err : Option PyExc
+  /-- what the listeners were shown (`Zc.ingest`) -/
+  out : IngestOut Cache
+
+/-- `async_updates_from_response` with the listener set `ls`: round 1 (`async_update_records`) before the cache adds and
+removes, round 2 (`async_update_records_complete`) after them.  An exception out of round 1 propagates before the adds
+and removes: the cache stays as the listeners of round 1 saw it.  `order` is the order in which a set is iterated
+(unspecified in Python: any function; the driver sorts, because the harness's listeners hash to their ids).
+`copied1`, `copied2`, `catches`: the three facts about the code that the generated leaves supply. -/
+def deliverWith (copied1 copied2 catches : Bool) (lower : String → String) (order : List Nat → List Nat) (c : Cache) (ls : List Nat)
+    (now : Ms) (recs : List Rec) (react1 react2 : Nat → List ListenerAct) : Except PyExc Delivery := do
+  let out ← ingest lower (Cache.ops lower) c now recs
+  match out.call1 with
+  | none => pure { cache := out.cache, listeners := ls, round1 := [], round2 := [], err := none, out := out }
+  | some call =>
+    let r1 := notifyRoundWith copied1 catches (order ls) react1
+    match r1.err with
+    | some e => pure { cache := call.2, listeners := r1.live, round1 := r1.called, round2 := [], err := some e, out := out }
+    | none =>
+      let r2 := notifyRoundWith copied2 catches (order r1.live) react2
+      pure { cache := out.cache, listeners := r2.live, round1 := r1.called, round2 := r2.called, err := r2.err, out := out }
+
+/-- the code as it is -/
+def deliver (lower : String → String) (order : List Nat → List Nat) (c : Cache) (ls : List Nat) (now : Ms) (recs : List Rec)
+    (react1 react2 : Nat → List ListenerAct) : Except PyExc Delivery :=
+  deliverWith Gen.Cache.updates_iterates_copy Gen.Cache.complete_iterates_copy Gen.Cache.remove_listener_catches_keyerror
+    lower order c ls now recs react1 react2
 
 end Zc
